@@ -5,7 +5,7 @@ from common import *
 import abigen, e2e, tablegen
 
 PROP = "C09"
-HEADER = "From Coq Require Import List Arith Bool String.\nImport ListNotations.\nFrom DV Require Import Headers.Model gen.Tables Escape.Model.\nLocal Open Scope string_scope."
+HEADER = "From Coq Require Import List Arith Bool String.\nImport ListNotations.\nFrom DV Require Import Headers.Model Headers.Cpp gen.Tables Escape.Model.\nLocal Open Scope string_scope."
 
 SPECIAL = r'''
 #[diplomat::bridge]
@@ -364,7 +364,7 @@ def check(ctx, replay=None):
     if os.path.isdir(outc):
         types = sorted(f[:-4] for f in os.listdir(outc) if f.endswith(".d.h"))
         idx = {t: i for i, t in enumerate(types)}
-        env, obs = [], []
+        env, env_cpp, obs = [], [], []
         for t in types:
             di = [x[:-4] for x in includes_of(os.path.join(outc, t + ".d.h")) if x.endswith(".d.h")]
             hi = [x[:-4] for x in includes_of(os.path.join(outc, t + ".h")) if x.endswith(".d.h")]
@@ -383,12 +383,42 @@ def check(ctx, replay=None):
                     return []
                 sig = sorted({n for m in methods for _, pt in m["params"] for n in names(pt)} | {n for m in methods for n in names(m["ret"])})
             env.append(f"mkT {clist([str(idx[x]) for x in fl])} {clist([str(idx[x]) for x in sig if x != t])}")
+            sig_cpp = sig
+            if t == "Op":      # the C++ API does mention zero-sized structs (the C header has nothing to declare for them)
+                def names2(ty):
+                    if ty[0] in ("enum", "struct"): return [ty[1]]
+                    if ty[0] == "zst": return ["Zs"]
+                    if ty[0] == "opt": return names2(ty[2])
+                    if ty[0] == "res": return names2(ty[1]) + names2(ty[2])
+                    return []
+                sig_cpp = sorted({n for m in methods for _, pt in m["params"] for n in names2(pt)} | {n for m in methods for n in names2(m["ret"])})
+            env_cpp.append(f"mkT {clist([str(idx[x]) for x in fl])} {clist([str(idx[x]) for x in sig_cpp if x != t and x in idx])}")
             obs.append((clist([str(idx[x]) for x in di if x in idx]), clist([str(idx[x]) for x in hi if x in idx])))
         cenv = clist(env)
         for i, t in enumerate(types):
             goals.append(f"agree_includes {cenv}%nat {i} {obs[i][0]}%nat {obs[i][1]}%nat")
             goals.append(f"agree_order {cenv}%nat {len(types) + 2} {i}")
         samples.append({"types": types, "includes_of_Op_h": includes_of(os.path.join(outc, "Op.h"))[:10]})
+        # 3b. the C++ headers of the same bridge: decl-header includes and forward declarations, impl-header includes, and the
+        # complete-before-use check of the include-once expansion (Headers/Cpp.v)
+        outcpp = os.path.join(d, "out_generated_cpp")
+        if os.path.isdir(outcpp) and all(os.path.exists(os.path.join(outcpp, t + ".d.hpp")) for t in types):
+            for i, t in enumerate(types):
+                dtxt = open(os.path.join(outcpp, t + ".d.hpp")).read()
+                inc_d = [x[:-6] for x in includes_of(os.path.join(outcpp, t + ".d.hpp")) if x.endswith(".d.hpp")]
+                fwd_d = [n for n in re.findall(r"^\s*(?:class|struct) (\w+);", dtxt, re.M) if n != t]
+                inc_h = [x[:-4] for x in includes_of(os.path.join(outcpp, t + ".hpp")) if x.endswith(".hpp") and not x.endswith(".d.hpp") and "diplomat_runtime" not in x]
+                first_h = (includes_of(os.path.join(outcpp, t + ".hpp")) or [""])[0]
+                if first_h != t + ".d.hpp":
+                    violate("direct:cpp-include-order", {"what": f"{t}.hpp includes {first_h!r} first; its own declaration header {t}.d.hpp has to come before every other include "
+                                                         "(that is what makes cyclic references between impl headers work)"})
+                unknown = [x for x in inc_d + fwd_d + inc_h if x not in idx]
+                if unknown:
+                    violate("direct:cpp-include-unknown", {"what": f"{t}.d.hpp / {t}.hpp mention {unknown}, which are not types of the bridge"})
+                    continue
+                il = lambda xs: clist([str(idx[x]) for x in xs])
+                goals.append(f"agree_cpp_files {clist(env_cpp)}%nat {i} {il(inc_d)}%nat {il(fwd_d)}%nat {il(inc_h)}%nat")
+                goals.append(f"agree_cpp_order {clist(env_cpp)}%nat {len(types) + 2} {len(types) + 2} {i}")
     # 4. keyword escaping collision (recorded finding when present)
     ce = os.path.join(d, "collide.rs")
     open(ce, "w").write(COLLIDE)
@@ -410,6 +440,9 @@ def check(ctx, replay=None):
     if fails and not ctx.violations and goals[fails[0]].startswith("agree_ident"):
         ctx.violation("corr:escape", {"broken": "correspondence goal " + goals[fails[0]][:400] + " : the parameter name a backend emitted is not the one Escape/Model.v "
                                       "derives from the regenerated keyword table (theorem C09_escaped_is_not_a_keyword)"}, False)
+    elif fails and not ctx.violations and goals[fails[0]].startswith("agree_cpp"):
+        ctx.violation("corr:cpp-includes", {"broken": "correspondence goal " + goals[fails[0]][:400] + " : the includes / forward declarations of the generated C++ headers are not "
+                                            "the ones Headers/Cpp.v derives (theorem C09_cpp_complete_before_body)"}, False)
     elif fails and not ctx.violations:
         ctx.violation("corr:includes", {"broken": "correspondence goal " + goals[fails[0]][:400] + " : the include structure of the generated C headers is not the one Headers/Model.v derives"}, False)
     for f in os.listdir(d):
